@@ -438,3 +438,221 @@ def _init_many(self, st, init, cls, base, cnt, elt):
 ComprehensionModel.init_many = _init_many
 
 ALL = ALL + [ValueClassModel, ItertoolsModel, ComprehensionModel]
+
+
+def _late():
+    from .streams import StreamModel
+    return [StreamModel]
+
+
+# ---------------------------------------------------------------------------
+DISKT = z3.ArraySort(U, U)
+
+
+class DiskModel(Model):
+    """Ghost file system (A-FS, A-IO):
+       DSTATE : path -> {0 absent, 1 partial, 2 complete}
+       DISK   : path -> content (meaningful when complete)
+    `Path.read_text()` of a complete file returns DISK[path]; of anything else
+    raises FileNotFoundError (a partial file is never reachable: C06)."""
+
+    def init_ghosts(self, st, fc):
+        st.ghost["DISK"] = z3.Const("DISK0", DISKT)
+        st.ghost["DSTATE"] = z3.Const("DSTATE0", z3.ArraySort(U, IntS))
+        st.ghost["FXN"] = VInt(z3.Const("FXN0", IntS))
+        st.ghost["__fs_init"] = False
+
+    def _facts(self, st):
+        if st.ghost.get("__fs_init"):
+            return
+        st.ghost["__fs_init"] = True
+        p = z3.Const("p!fs", U)
+        d0 = z3.Const("DSTATE0", z3.ArraySort(U, IntS))
+        st.pc.insert(0, z3.ForAll([p], z3.And(d0[p] >= 0, d0[p] <= 2)))
+
+    def havoc_ghosts(self, st, ghosts, has_yield):
+        if "fs" in ghosts:
+            self._facts(st)
+            old = st.ghost["DSTATE"]
+            new = st.fresh("DSTATE", old.sort())
+            p = z3.Const("p!fs", U)
+            st.assume(z3.ForAll([p], z3.And(new[p] >= 0, new[p] <= 2)))
+            # complete files stay complete (no effect of the code under
+            # contract truncates or removes a complete file; renames replace
+            # a complete file by a complete file)
+            st.assume(z3.ForAll([p], z3.Implies(old[p] == 2, new[p] == 2)))
+            st.ghost["DSTATE"] = new
+            st.ghost["DISK"] = st.fresh("DISK", DISKT)
+            oldn = st.ghost["FXN"].t
+            n = st.fresh("FXN", IntS)
+            st.assume(n >= oldn)
+            st.ghost["FXN"] = VInt(n)
+
+    def call_other_method(self, st, recv, name, node):
+        eng = self.eng
+        if isinstance(recv, VU) and name == "read_text":
+            self._facts(st)
+            eng.eval_args(st, node)
+            ds = st.ghost["DSTATE"]
+            eng.require(st, ds[recv.t] == 2, "FileNotFoundError", node.lineno)
+            return VU(st.ghost["DISK"][recv.t])
+        if isinstance(recv, VU) and name == "is_file":
+            self._facts(st)
+            return VBool(st.ghost["DSTATE"][recv.t] == 2)
+        if isinstance(recv, VU) and name in ("resolve", "expanduser"):
+            f = z3.Function("P_" + name, U, U)
+            return VU(f(recv.t))
+        if isinstance(recv, VU) and name == "mkdir":
+            eng.eval_args(st, node)
+            st.ghost["FXN"] = VInt(st.ghost["FXN"].t + 1)
+            return VNone()
+        return NotImplemented
+
+    def sp_disk(self, st):
+        return st.ghost["DISK"]
+
+
+class LoggerModel(Model):
+    """self._logger.info(...) etc.: no effect on the modelled state."""
+
+    def call_ref_method(self, st, recv, name, node):
+        return NotImplemented
+
+    def call_other_method(self, st, recv, name, node):
+        if isinstance(recv, VModule) and recv.name.startswith("logger"):
+            for a in node.args:
+                try:
+                    self.eng.eval(st, a)
+                except self.E.Unsupported:
+                    pass
+            return VNone()
+        return NotImplemented
+
+    def getattr(self, st, obj, attr, line):
+        if attr == "_logger":
+            return VModule("logger")
+        return None
+
+    def property_get(self, st, obj, attr, line):
+        if attr == "_logger":
+            return VModule("logger")
+        return None
+
+
+class PydModel(Model):
+    """pydantic (A-PYD): Cls.model_validate_json(text) returns a fresh object
+    equal, field by field, to the document PARSE_<Cls>(text) and satisfying
+    the class's validators (stated as the sidecar macro VALID_<Cls>, whose
+    clauses are the postconditions of the validator contracts); it raises
+    ValueError (pydantic.ValidationError) for a rejected document."""
+
+    def parse_fn(self, cls):
+        return z3.Function("PARSE_" + cls, U, IntS)
+
+    def call_dotted(self, st, d, node):
+        eng = self.eng
+        parts = d.split(".")
+        if len(parts) >= 2 and parts[-1] == "model_validate_json" and \
+                parts[-2] in eng.reg.classes:
+            cls = parts[-2]
+            text = eng.eval(st, node.args[0])
+            return self.validate_json(st, cls, text, node.lineno)
+        return NotImplemented
+
+    def validate_json(self, st, cls, text, line):
+        eng = self.eng
+        E = self.E
+        tt = eng.coerce(st, text, "U")
+        rejected = z3.Function("REJECTS_" + cls, U, BoolS)
+        if st.branch(rejected(tt), f"validate-rejects@{line}"):
+            raise E.RaiseEx("ValueError", line, "pydantic validation error")
+        snap = VRef(self.parse_fn(cls)(tt), cls)
+        st.assume(snap.t >= 1)
+        st.assume(snap.t < st.old["next_ref"] if st.old else snap.t >= 1)
+        new = eng.alloc(st, cls)
+        self.copy_fields(st, cls, snap, new)
+        macro = "VALID_" + cls
+        if macro in eng.reg.macros:
+            saved = st.locals
+            st.locals = dict(saved)
+            st.locals["__v"] = new
+            try:
+                st.assume(eng.spec_bool(st, f"{macro}(__v)"))
+            finally:
+                st.locals = saved
+        new.snapshot = snap
+        return new
+
+    def copy_fields(self, st, cls, src, dst):
+        eng = self.eng
+        c = cls
+        seen = set()
+        while c is not None:
+            for f, shape in eng.reg.classes.get(c, {}).items():
+                if f.startswith("_") and f in ("_order", "_defaults",
+                                               "_validate", "_value"):
+                    continue
+                if f in seen or not isinstance(shape, str):
+                    continue
+                seen.add(f)
+                v = eng.load_field(st, src, f)
+                if isinstance(v, VList):
+                    v = VList(v.arr, v.n, v.eshape, v.ms)
+                eng.store_field(st, dst, f, v)
+            c = eng.reg.bases.get(c)
+
+
+ALL = ALL + [DiskModel, LoggerModel, PydModel]
+
+
+KSEQ = z3.Function("KSEQ", z3.ArraySort(U, BoolS), IntS, U)
+KN = z3.Function("KN", z3.ArraySort(U, BoolS), IntS)
+KIDX = z3.Function("KIDX", z3.ArraySort(U, BoolS), U, IntS)
+
+
+class DictIterModel(Model):
+    """for k / v / (k, v) in d.keys() / d.values() / d.items(): visits every
+    key of d exactly once (KSEQ(dom, i), i < KN(dom) is a bijection onto the
+    key set).  The order is left unspecified (a function of the key set)."""
+
+    def for_source(self, st, node, srcv, K, stop):
+        if isinstance(srcv, VDict):
+            srcv_ = VFunc(name="keys", bound=srcv)
+        else:
+            srcv_ = srcv
+        if not (isinstance(srcv_, VFunc) and isinstance(srcv_.bound, VDict)
+                and srcv_.name in ("keys", "values", "items")):
+            return None
+        d = srcv_.bound
+        line = node.lineno
+        if d.val is None:
+            def pull_empty():
+                stop()
+            return pull_empty
+        dom = d.dom
+        n = KN(dom)
+        i = z3.Const("i!dk", IntS)
+        j = z3.Const("j!dk", IntS)
+        k = z3.Const("k!dk", U)
+        st.assume(n >= 0)
+        st.assume(z3.ForAll([i], z3.Implies(z3.And(0 <= i, i < n),
+                                            z3.And(dom[KSEQ(dom, i)],
+                                                   KIDX(dom, KSEQ(dom, i)) == i))))
+        st.assume(z3.ForAll([k], z3.Implies(dom[k], z3.And(
+            0 <= KIDX(dom, k), KIDX(dom, k) < n, KSEQ(dom, KIDX(dom, k)) == k))))
+
+        def pull():
+            if not st.branch(K() < n, f"fordict@{line}"):
+                stop()
+            key = KSEQ(dom, K())
+            kv = VU(key)
+            vv = wrap(d.vshape, d.val[key])
+            if srcv_.name == "keys":
+                return kv
+            if srcv_.name == "values":
+                return vv
+            return VTuple([kv, vv])
+        return pull
+
+
+ALL = ALL + [DictIterModel]
